@@ -2,6 +2,7 @@ package main
 
 import (
 	"fmt"
+	"strings"
 	"go/types"
 
 	"golang.org/x/tools/go/ssa"
@@ -314,8 +315,14 @@ func (x *Exec) store(p Ptr, t types.Type, v Value) {
 	if n == 0 {
 		return
 	}
-	if p.Obj.Caller && x.trackWrites {
-		x.event("caller-write", fmt.Sprintf("%s+%d at %s", p.Obj.Name, p.Off, x.where()))
+	if x.trackWrites {
+		if p.Obj.Caller {
+			x.writeEvents++
+			x.event("caller-write", fmt.Sprintf("%s+%d at %s", p.Obj.Name, p.Off, x.where()))
+		} else if strings.HasPrefix(p.Obj.Name, "global:") {
+			x.writeEvents++
+			x.event("global-write", fmt.Sprintf("%s+%d at %s", p.Obj.Name, p.Off, x.where()))
+		}
 	}
 	if isAggType(t) {
 		a := v.(Agg)
